@@ -800,6 +800,25 @@ fn check_facts(n: &SyntaxNode, parent: Option<&SyntaxNode>, in_raw: bool, is_roo
     if k == K::FuncCall && !(ch.len() == 2 && is_expr(ch[0]) && ch[1].kind() == K::Args) {
         out.push(format!("PF12: FuncCall with children {:?}", ch.iter().map(|c| c.kind()).collect::<Vec<_>>()));
     }
+    // PF17: a code block has exactly one Code child; with it flattened in, a line comment is still followed by its line break
+    if k == K::CodeBlock {
+        if ch.iter().filter(|c| c.kind() == K::Code).count() != 1 {
+            out.push(format!("PF17: CodeBlock with children {:?}", ch.iter().map(|c| c.kind()).collect::<Vec<_>>()));
+        }
+        let mut flat: Vec<&SyntaxNode> = vec![];
+        for c in &ch {
+            if c.kind() == K::Code {
+                flat.extend(c.children());
+            } else {
+                flat.push(c);
+            }
+        }
+        for w in flat.windows(2) {
+            if w[0].kind() == K::LineComment && !(w[1].kind() == K::Space && has_nl(w[1].text())) {
+                out.push(format!("PF17: in a flattened code block a line comment is followed by {:?}", w[1].kind()));
+            }
+        }
+    }
     // PF15: a content block / strong / emphasis is its two markers around one Markup
     if matches!(k, K::ContentBlock | K::Strong | K::Emph) {
         let (o, c) = match k {
